@@ -22,8 +22,8 @@ ASSUMPTIONS = ['a date cell is a numeric cell (its serial number), as in Excel',
 DT = datetime.datetime
 DATE = DT(2020, 1, 31)
 SERIAL = (DATE - DT(1899, 12, 30)).days
-KINDS = [3, 2.5, -4, 'x', '7', True, False, None, '', DATE]
-KNAME = ['int', 'float', 'neg', 'text', 'numtext', 'true', 'false', 'blank', 'emptytext', 'date']
+KINDS = [3, 2.5, -4, 'x', '7', True, False, None, '', DATE, 0]
+KNAME = ['int', 'float', 'neg', 'text', 'numtext', 'true', 'false', 'blank', 'emptytext', 'date', 'zero']
 FUNCS = ['SUM', 'AVERAGE', 'MIN', 'MAX', 'COUNT']
 MAXN = 5
 RCOLS = 'ABCDE'
